@@ -53,12 +53,12 @@ func startServer(logger interface {
 	Errorf(ctx context.Context, format string, args ...interface{})
 	Debugf(ctx context.Context, format string, args ...interface{})
 	Record(ctx context.Context, r map[string]string, obscure ...string)
-}, sp tq.SecretProvider) *libServer {
+}, sp tq.SecretProvider, opts ...tq.Option) *libServer {
 	log := transport.NewLog()
 	s := &libServer{log: log, ln: transport.NewListener(log), done: make(chan struct{})}
 	ctx, cancel := context.WithCancel(context.Background())
 	s.cancel = cancel
-	srv := tq.NewServer(logger, sp)
+	srv := tq.NewServer(logger, sp, opts...)
 	go func() {
 		_ = srv.Serve(ctx, s.ln)
 		log.Add(transport.EvServeReturn, -1, 0, nil, "")
